@@ -203,6 +203,10 @@ func (n *Node) boot() {
 	n.up = true
 	n.crashing = false
 	n.resetPending = false // a Reset scheduled by the previous incarnation died with it
+	if n.inc > 1 && n.ident < len(sc.WOAfterRestart) && sc.WOAfterRestart[n.ident] {
+		n.flagWO = true
+		s.fault("restarted_in_watch_only_mode")
+	}
 	n.crashAfterSends = -1
 	if n.scriptCrashSends > 0 && n.inc == 1 {
 		n.crashAfterSends = n.scriptCrashSends
